@@ -287,7 +287,10 @@ class Gen:
                 bits, signed = DT[dtype]
                 lo, hi = (-(1 << (bits - 1)), (1 << (bits - 1)) - 1) if signed else (0, (1 << bits) - 1)
                 qv = int(r.integers(max(lo, -1000), min(hi, 1000) + 1))
-                spec["scalar"] = float((qv - (i2.zp or 0)) * (i2.scale if i2.scale is not None else 1.0)) if dtype != "INT32" else float(int(r.integers(0, 20)))
+                if qv % 4 == 0:
+                    qv = int(i2.zp or 0)  # a quarter of the scalars are exactly 0.0 (register value = the zero point): "no scalar" and "scalar zero" must not be confused
+                k32 = int(r.integers(0, 20))
+                spec["scalar"] = float((qv - (i2.zp or 0)) * (i2.scale if i2.scale is not None else 1.0)) if dtype != "INT32" else float(0 if k32 % 4 == 0 else k32)
             else:
                 bh, bw, bc = (k == 1), (k == 2 or k == 1), (k == 3)
                 shp = (1 if bh else oh, 1 if bw else ow, 1 if bc else oc)
